@@ -9,9 +9,18 @@ Histories are lists of atoms (`tick` = head of a `vbi_decode` call, `line` = one
 `mask`, `chsw`); `frames_are_atom_lists` says a frame is `tick` followed by its lines, so all
 interleavings of the carriers inside and across frames are covered.  Events are the ones raised;
 the handler sees the sub-list selected by its mask (`handler_sees_raised_events_only`).
+
+Two source shapes each for F11 and F35 (`cfg.perCarrier`, `cfg.chswIdent`; read from the tree by
+translate/gen_netflags.py, see `cfg_of_this_tree`).  Every theorem is stated for every `cfg`, i.e. for both
+shapes, unless it names a flag: the counterexamples name the unrepaired value, the full-strength statements
+(`single_glitch_harmless_per_carrier`, `station_change_to_unknown_exactly_one_event`) the repaired one.
+`pending cfg c s` is `n->cycle == 1` in the shared-cycle shape and `vbi->cni_cycle[c] == 1` in the per-carrier one.
 -/
 namespace Zvbi.Props.C13
 open Zvbi.Net Zvbi.Codec Zvbi.Gen
+
+/-- a configuration with an empty station table (for histories without CNIs) -/
+def cfgPlain : Cfg := { lk := fun _ _ => (0, []), xdsGuard := true }
 
 /-! ## plumbing -/
 
@@ -32,27 +41,30 @@ example : (frame cfg0 init 0 []).2 = [] := by decide
 
 /-- Every NETWORK / NETWORK_ID event raised by a VPS or 8/30 line carries the CNI that line transmitted,
     the id and the name the table gives for it; and it is raised only if that value was already stored
-    with a change pending.  Excluded: an identified station replaced by a CNI the table does not know
-    (`event_values_unknown_station_counterexample`, F17). -/
+    with a change pending.  With the callers of `vbi_chsw_reset` passing "identified" (`cfg.chswIdent`, F35
+    repaired) this holds without exception; before, one case is excluded: an identified station replaced by a
+    CNI the table does not know (`event_values_unknown_station_counterexample`). -/
 theorem event_values_faithful (cfg : Cfg) (t : Nat) (s : State) (l : Line) (c : Carrier) (v : Nat)
-    (h : lineCni s.mask l = some (c, v)) (hx : ¬ ((cfg.lk c v).1 = 0 ∧ s.net.nuid ≠ 0)) (n : Network)
+    (h : lineCni s.mask l = some (c, v)) (hx : cfg.chswIdent = true ∨ ¬ ((cfg.lk c v).1 = 0 ∧ s.net.nuid ≠ 0)) (n : Network)
     (hn : Ev.network n ∈ (rxLine cfg t s l).2 ∨ Ev.networkId n ∈ (rxLine cfg t s l).2) :
-    cniOf c n = v ∧ n.nuid = (cfg.lk c v).1 ∧ n.name = lkName cfg.lk c v ∧ cniOf c s.net = v ∧ s.net.cycle = 1 := by
+    cniOf c n = v ∧ n.nuid = (cfg.lk c v).1 ∧ n.name = lkName cfg c v ∧ cniOf c s.net = v ∧ pending cfg c s := by
   have k := rxLine_cniStep cfg t s l (lineCni_some_kind _ _ _ h)
   obtain ⟨extra, hev, hex⟩ := k.2.2.2.2.2.2.2.2
   rw [hev, h] at hn
-  exact cniRx_faithful cfg.lk c v s hx n (mem_extra_of_network hex n hn)
+  exact cniRx_faithful cfg c v s hx n (mem_extra_of_network hex n hn)
 
-/-- F17 in the model: when an identified station is replaced by a CNI missing from the table, the line
-    raises NETWORK twice and a NETWORK_ID whose CNI fields are all zero although `v` was received. -/
-theorem event_values_unknown_station_counterexample (cfg : Cfg) (t : Nat) (s : State) (l : Line) (c : Carrier) (v : Nat)
-    (h : lineCni s.mask l = some (c, v)) (hst : v = cniOf c s.net) (hcy : s.net.cycle = 1)
+/-- F35 (was F17) in the model, for every tree WITHOUT the repair (`cfg.chswIdent = false`: the CNI paths call
+    `vbi_chsw_reset (vbi, id)` with `id = 0`): when an identified station is replaced by a CNI missing from the
+    table, the line raises NETWORK twice and a NETWORK_ID whose CNI fields are all zero although `v` was received. -/
+theorem event_values_unknown_station_counterexample (cfg : Cfg) (hI : cfg.chswIdent = false)
+    (t : Nat) (s : State) (l : Line) (c : Carrier) (v : Nat)
+    (h : lineCni s.mask l = some (c, v)) (hst : v = cniOf c s.net) (hcy : pending cfg c s)
     (hold : s.net.nuid ≠ 0) (hnew : (cfg.lk c v).1 = 0) :
     countNetwork (rxLine cfg t s l).2 = 2 ∧ Ev.networkId {} ∈ (rxLine cfg t s l).2 ∧
     cniOf c (rxLine cfg t s l).1.net = 0 := by
   have k := rxLine_cniStep cfg t s l (lineCni_some_kind _ _ _ h)
   obtain ⟨extra, hev, hex⟩ := k.2.2.2.2.2.2.2.2
-  have f := cniRx_unknown_facts cfg.lk c v s hst hcy hold hnew
+  have f := cniRx_unknown_facts cfg c v s hst hcy hold hnew hI
   rw [hev, k.1, h]
   simp only [cniStep]
   refine ⟨?_, List.mem_append_left _ f.2.1, f.2.2⟩
@@ -60,19 +72,19 @@ theorem event_values_unknown_station_counterexample (cfg : Cfg) (t : Nat) (s : S
 
 /-- A PROG_ID event from VPS carries exactly the PIL/PTY/PCS/CNI of this line, and the same programme id was
     received on the previous VPS line that changed it (double reception, VPS has no error protection). -/
-theorem event_values_faithful_vps_pid (lk : Lookup) (s : State) (b : Buf) (p : Pid)
-    (h : Ev.progId p ∈ (rxVps lk s b).2) : p = decodeVpsPdc b ∧ s.vpsPid = decodeVpsPdc b ∧ decodeVpsCni b = s.net.cniVps :=
-  rxVps_progId lk s b p h
+theorem event_values_faithful_vps_pid (cfg : Cfg) (s : State) (b : Buf) (p : Pid)
+    (h : Ev.progId p ∈ (rxVps cfg s b).2) : p = decodeVpsPdc b ∧ s.vpsPid = decodeVpsPdc b ∧ decodeVpsCni b = s.net.cniVps :=
+  rxVps_progId cfg s b p h
 
 /-- A LOCAL_TIME event carries the time and offset decoded from this very 8/30 format 1 packet. -/
-theorem event_values_faithful_local_time (lk : Lookup) (s : State) (b : Buf) (t east : Int)
-    (h : Ev.localTime t east ∈ (rxTtx lk s b).2) : decode8301LocalTime b = some (t, east) :=
-  rxTtx_localTime lk s b t east h
+theorem event_values_faithful_local_time (cfg : Cfg) (s : State) (b : Buf) (t east : Int)
+    (h : Ev.localTime t east ∈ (rxTtx cfg s b).2) : decode8301LocalTime b = some (t, east) :=
+  rxTtx_localTime cfg s b t east h
 
 /-- A PROG_ID event from Teletext carries the programme id decoded from this very 8/30 format 2 packet. -/
-theorem event_values_faithful_pdc (lk : Lookup) (s : State) (b : Buf) (p : Pid)
-    (h : Ev.progId p ∈ (rxTtx lk s b).2) : decode8302Pdc b = some p :=
-  rxTtx_progId lk s b p h
+theorem event_values_faithful_pdc (cfg : Cfg) (s : State) (b : Buf) (p : Pid)
+    (h : Ev.progId p ∈ (rxTtx cfg s b).2) : decode8302Pdc b = some p :=
+  rxTtx_progId cfg s b p h
 
 /-- An ASPECT event carries the aspect the WSS word encodes; it needs that word stored, three earlier
     repeats counted, valid parity, and an aspect different from the one announced last. -/
@@ -131,32 +143,29 @@ example : (runAtoms cfg0 init [.line 1 (.wss 0x0B 0), .line 2 (.wss 0x0B 0), .li
 
 /-! ## no_reannounce_while_stable -/
 
-/-- Right after a NETWORK_ID from the debounce nothing is pending (`cycle = 2`). -/
-theorem announcement_settles (lk : Lookup) (c : Carrier) (v : Nat) (s : State) (n : Network)
-    (h : Ev.networkId n ∈ (cniRx lk c v s).2) : (cniRx lk c v s).1.net.cycle = 2 := by
-  by_cases h1 : v = cniOf c s.net
-  · by_cases h2 : s.net.cycle = 1
-    · by_cases h3 : (lk c v).1 = s.net.nuid
-      · rw [cniRx_same lk c v s h1 h2 h3]
-      · by_cases h4 : s.net.nuid = 0
-        · rw [cniRx_first lk c v s h1 h2 h3 h4]
-        · by_cases h5 : (lk c v).1 = 0
-          · rw [cniRx_unknown lk c v s h1 h2 h4 h5]
-          · rw [cniRx_switch lk c v s h1 h2 h3 h4 h5]
-    · rw [cniRx_idle lk c v s h1 h2] at h; simp at h
-  · rw [cniRx_change lk c v s h1] at h; simp at h
+/-- Right after a NETWORK_ID from the debounce nothing is pending on that carrier (`cycle = 2`). -/
+theorem announcement_settles (cfg : Cfg) (c : Carrier) (v : Nat) (s : State) (n : Network)
+    (h : Ev.networkId n ∈ (cniRx cfg c v s).2) : ¬ pending cfg c (cniRx cfg c v s).1 := by
+  revert h
+  apply cniRx_cases cfg c v s (fun r => Ev.networkId n ∈ r.2 → ¬ pending cfg c r.1)
+  · intro _ h; simp at h
+  · intro _ _ h; simp at h
+  all_goals (intros; exact markDone_not_pending _ _ _ _)
 
-/-- While nothing is pending and every reception (VPS, 8/30-1, 8/30-2, XDS name and call letters; WSS words
+/-- While nothing is pending (`n->cycle`, and in the per-carrier shape every `vbi->cni_cycle[c]`, differ from 1)
+    and every reception (VPS, 8/30-1, 8/30-2, XDS name and call letters; WSS words
     and pages are free) equals what is stored, in any interleaving over any number of regular frames,
     neither NETWORK nor NETWORK_ID is raised, the network record stays as it is, the countdown stays idle, and a
     page cached at any point of the history is still cached at its end. -/
 theorem no_reannounce_while_stable (cfg : Cfg) (n : Network) (mask : Nat) (hn : n.cycle ≠ 1)
-    (atoms : List Atom) (s : State) (h1 : s.net = n) (h2 : s.chswcd = 0) (h3 : s.mask = mask)
+    (atoms : List Atom) (s : State) (hnp : ∀ c, cfg.perCarrier = true → cycOf c s.deb ≠ 1)
+    (h1 : s.net = n) (h2 : s.chswcd = 0) (h3 : s.mask = mask)
     (hreg : RegularFrom s.time atoms) (hq : ∀ a ∈ atoms, SameAsStored n mask a) :
     Silent (runAtoms cfg s atoms).2 ∧ (runAtoms cfg s atoms).1.net = n ∧ (runAtoms cfg s atoms).1.chswcd = 0 ∧
     (runAtoms cfg s atoms).1.mask = mask ∧
     (∀ q1 q2, atoms = q1 ++ q2 → (runAtoms cfg s q1).1.cached ⊆ (runAtoms cfg s atoms).1.cached) :=
-  stable_run cfg n mask hn atoms s h1 h2 h3 hreg hq
+  have r := stable_run cfg n s.deb mask hn hnp atoms s h1 rfl h2 h3 hreg hq
+  ⟨r.1, r.2.1, r.2.2.1, r.2.2.2.1, r.2.2.2.2.1⟩
 
 /-- WSS: an ASPECT event stores the announced aspect, and an event needs an aspect different from the stored
     one, so the same word arriving again cannot announce again. -/
@@ -178,9 +187,60 @@ theorem no_reannounce_aspect (s : State) (b0 b1 t : Nat) (a : Aspect) (h : Ev.as
 example : (runAtoms cfg0 init [.line 1 (.wss 0x0B 0), .line 2 (.wss 0x0B 0), .line 3 (.wss 0x0B 0), .line 4 (.wss 0x0B 0),
     .line 5 (.wss 0x0B 0), .line 6 (.wss 0x0B 0)]).2.length = 2 := by decide
 
+/-- enable_other_class_keeps_aspect: on a tree whose `vbi_event_enable` resets the programme info only when neither
+    ASPECT nor PROG_INFO was enabled before (`keeps = true`; `Gen.Net.enableKeepsProgInfo`, read from vbi.c on every
+    run): while a handler for ASPECT or PROG_INFO is registered, registering / changing / removing handlers with ANY
+    mask - the other of the two bits, other event classes, everything at once - keeps the remembered aspect and its
+    source and the WSS repeat state, so a WSS word that encodes the remembered aspect raises no ASPECT (and no
+    PROG_INFO) event afterwards: the handler that has been told this aspect is not told again. -/
+theorem enable_other_class_keeps_aspect (s : State) (m : Nat)
+    (hon : hasBit s.mask (VBI_EVENT_ASPECT ||| VBI_EVENT_PROG_INFO) = true) :
+    (eventEnable true s m).aspect = s.aspect ∧ (eventEnable true s m).aspectSource = s.aspectSource ∧
+    (eventEnable true s m).wssLast = s.wssLast ∧ (eventEnable true s m).wssRep = s.wssRep ∧
+    ∀ b0 b1 t, wssAspect b0 b1 = s.aspect → (rxWss (eventEnable true s m) b0 b1 t).2 = [] := by
+  have ha : (eventEnable true s m).aspect = s.aspect := by
+    simp only [eventEnable]
+    repeat' split
+    all_goals simp_all
+  refine ⟨ha, ?_, ?_, ?_, ?_⟩
+  · simp only [eventEnable]
+    repeat' split
+    all_goals simp_all
+  · simp only [eventEnable]
+    repeat' split
+    all_goals simp_all
+  · simp only [eventEnable]
+    repeat' split
+    all_goals simp_all
+  · intro b0 b1 t hw
+    simp only [rxWss]
+    repeat' split
+    all_goals first
+      | rfl
+      | (rename_i hne; rw [ha] at hne; exact absurd hw hne)
+
+-- non-vacuity: an ASPECT handler exists after `mask 0x40`, and the hypothesis of the theorem holds for that state
+example : hasBit (runAtoms cfgPlain init [.mask 0x40]).1.mask (VBI_EVENT_ASPECT ||| VBI_EVENT_PROG_INFO) = true := by decide
+
+/-- 16:9 word with valid parity four times to an ASPECT-only handler (mask 0x40), then the handler is registered
+    again with ASPECT | PROG_INFO (0xC0), then the same word once more -/
+def aspectThenOtherBit : List Atom :=
+  [.mask 0x40, .line 1 (.wss 0x0B 0), .line 2 (.wss 0x0B 0), .line 3 (.wss 0x0B 0), .line 4 (.wss 0x0B 0),
+   .mask 0xC0, .line 5 (.wss 0x0B 0)]
+
+/-- non-vacuity and the other shape (seeded change C13-g): with the inner test the fifth word raises nothing;
+    without it (`enableKeepsInfo = false`) the unchanged aspect is announced a second time with identical values. -/
+theorem enable_other_class_counterexample :
+    (runAtoms { cfgPlain with enableKeepsInfo := true } init aspectThenOtherBit).2 =
+      [Ev.aspect (wssAspect 0x0B 0), Ev.progInfo (wssAspect 0x0B 0)] ∧
+    (runAtoms { cfgPlain with enableKeepsInfo := false } init aspectThenOtherBit).2 =
+      [Ev.aspect (wssAspect 0x0B 0), Ev.progInfo (wssAspect 0x0B 0), Ev.aspect (wssAspect 0x0B 0), Ev.progInfo (wssAspect 0x0B 0)] := by
+  decide
+
 /-! ## single_glitch_harmless -/
 
-/-- Full strength, interleaved carriers, with the hypothesis the shared `cycle` variable forces (`ids_agree`):
+/-- Either shape.  Interleaved carriers, with the hypothesis the shared `cycle` variable forces (`ids_agree`; for the
+    per-carrier shape see `single_glitch_harmless_per_carrier`, which needs no such hypothesis):
     the station transmits `st c` on carrier `c` and every carrier that is received with its station value
     (`ok c`) resolves to the one id `id`.  The decoder has identified the station (`nuid = id`), no countdown
     runs, and each carrier's stored value is the station's or a deviating value recorded in `lg`.  Then over
@@ -198,6 +258,23 @@ theorem single_glitch_harmless (cfg : Cfg) (st : Carrier → Nat) (ok : Carrier 
     (runAtoms cfg s atoms).1.net.nuid = id :=
   glitch_run cfg st ok id mask ids_agree atoms s lg ⟨hid, hcd, hm, hst⟩ hreg hg
 
+/-- FULL strength, for every tree with the repair of F11 (`cfg.perCarrier = true`: one repeat cycle and one
+    "CNI announced last" per carrier): NO hypothesis about ids.  The station transmits `st c` on carrier `c`; every
+    carrier has announced that value or never had to (`annOf c = st c`: 0 for a carrier that sends nothing), a repeat
+    is awaited only on carriers whose stored value is a deviating word, no countdown runs.  Then over ANY regularly
+    timed history of VPS / 8/30 / WSS / page lines in ANY interleaving, with any number of deviating words on any
+    carriers (never the same wrong value twice in a row on one carrier): neither NETWORK nor NETWORK_ID is raised,
+    no cached page is lost, and the identification (whatever it is, 0 included) stays. -/
+theorem single_glitch_harmless_per_carrier (cfg : Cfg) (hp : cfg.perCarrier = true) (st : Carrier → Nat) (mask : Nat)
+    (atoms : List Atom) (s : State) (lg : Carrier → Option Nat)
+    (hcd : s.chswcd = 0) (hm : s.mask = mask)
+    (hst : ∀ c, cniOf c s.net = st c ∨ lg c = some (cniOf c s.net))
+    (hann : ∀ c, annOf c s.deb = st c) (hpend : ∀ c, pending cfg c s → cniOf c s.net ≠ st c)
+    (hreg : RegularFrom s.time atoms) (hg : NoRepeatedGlitch st (fun _ => true) mask lg atoms) :
+    Silent (runAtoms cfg s atoms).2 ∧ s.cached ⊆ (runAtoms cfg s atoms).1.cached ∧
+    (runAtoms cfg s atoms).1.net.nuid = s.net.nuid :=
+  glitch_run_per cfg hp st s.net.nuid mask atoms s lg ⟨rfl, hcd, hm, hst, hann, hpend⟩ hreg hg
+
 /-- the demonstration table: VPS 0x0AC1 is station 193, nothing else is known (so 8/30-1 CNI 0 has id 0) -/
 def lkDemo : Lookup := fun c v => if c = .vps ∧ v = 0x0AC1 then (193, [79, 82, 70]) else (0, [])
 def cfgDemo : Cfg := { lk := lkDemo, xdsGuard := false }
@@ -213,11 +290,13 @@ def establishF11 : List Atom :=
    .tick 1160000, .line 1160000 vpsA, .tick 1200000, .line 1200000 p8301Zero,
    .tick 1240000, .line 1240000 (.page 0x100)]
 
-/-- The excluded point (F11): the two carriers resolve to different ids (193 and 0).  After the station is
+/-- The excluded point (F11) in the shared-cycle shape (`cfgDemo.perCarrier = false`): the two carriers resolve to
+    different ids (193 and 0).  After the station is
     identified and a page cached, ONE deviating VPS word followed by the unchanged 8/30-1 packet raises
     NETWORK (twice) and empties the cache.  The same history is `corpus/C13/F11-vps-glitch-flushes-cache.ops`
     on the real code with the real table. -/
 theorem single_glitch_interleaved_counterexample :
+    cfgDemo.perCarrier = false ∧
     (cfgDemo.lk .vps 0x0AC1).1 ≠ (cfgDemo.lk .p8301 0).1 ∧
     (runAtoms cfgDemo init establishF11).1.net.nuid = 193 ∧
     (runAtoms cfgDemo init establishF11).1.cached = [0x100] ∧
@@ -227,6 +306,32 @@ theorem single_glitch_interleaved_counterexample :
     (runAtoms cfgDemo (runAtoms cfgDemo init establishF11).1
       [.tick 1280000, .line 1280000 vpsG, .tick 1320000, .line 1320000 p8301Zero]).1.cached = [] := by
   decide
+
+/-- the same table and history in the per-carrier shape (with either shape of the `vbi_chsw_reset` call) -/
+def cfgDemoPer (ident : Bool) : Cfg := { cfgDemo with perCarrier := true, chswIdent := ident }
+
+/-- The witness of F11 is harmless in the per-carrier shape: same establishing history, same deviating VPS word,
+    same unchanged 8/30-1 packet, then the station's VPS word again twice: neither NETWORK nor NETWORK_ID, the page stays
+    cached, station 193 stays identified; and the state after the establishing history satisfies the hypotheses
+    of `single_glitch_harmless_per_carrier` (non-vacuity of that theorem on the very history that breaks the
+    shared-cycle shape). -/
+theorem single_glitch_interleaved_per_carrier (ident : Bool) :
+    let s := (runAtoms (cfgDemoPer ident) init establishF11).1
+    let st : Carrier → Nat := fun c => if c = .vps then 0x0AC1 else 0
+    s.net.nuid = 193 ∧ s.cached = [0x100] ∧ s.chswcd = 0 ∧
+    (∀ c, cniOf c s.net = st c) ∧ (∀ c, annOf c s.deb = st c) ∧ (∀ c, ¬ pending (cfgDemoPer ident) c s) ∧
+    (runAtoms (cfgDemoPer ident) s
+      [.tick 1280000, .line 1280000 vpsG, .tick 1320000, .line 1320000 p8301Zero,
+       .tick 1360000, .line 1360000 vpsA, .tick 1400000, .line 1400000 vpsA]).2.all
+        (fun e => !e.isNetwork && !e.isNetworkId) = true ∧
+    (runAtoms (cfgDemoPer ident) s
+      [.tick 1280000, .line 1280000 vpsG, .tick 1320000, .line 1320000 p8301Zero,
+       .tick 1360000, .line 1360000 vpsA, .tick 1400000, .line 1400000 vpsA]).1.cached = [0x100] := by
+  cases ident <;>
+  · refine ⟨by decide, by decide, by decide, ?_, ?_, ?_, by decide, by decide⟩
+    · intro c; cases c <;> decide
+    · intro c; cases c <;> decide
+    · intro c; cases c <;> decide
 
 /-- XDS, current code (no comparison of the new id with `n->nuid`): station announced, one deviating name,
     the name again twice: NETWORK is raised for the unchanged station and the cache emptied (F18). -/
@@ -252,6 +357,12 @@ theorem single_glitch_harmless_xds_with_guard (s : State) (bytes : List Nat)
 /-- which of the two XDS shapes the current tree has (extracted by translate/gen_net.py) -/
 theorem xds_guard_of_this_tree : cfg0.xdsGuard = xdsNuidGuard := rfl
 
+/-- which shapes of F11 / F35 the tree under test has (extracted by translate/gen_netflags.py on every run): the
+    configuration the driver runs, and the correspondence check compares with the real code, carries exactly
+    these two flags -/
+theorem cfg_of_this_tree :
+    cfg0.perCarrier = Zvbi.Gen.Net.cniCyclePerCarrier ∧ cfg0.chswIdent = Zvbi.Gen.Net.chswCallersIdentified := ⟨rfl, rfl⟩
+
 -- non-vacuity of `single_glitch_harmless`: same history as the counterexample, but the 8/30-1 packet is absent
 -- from the `ok` carriers' disagreement because the table knows its code too
 example : NoRepeatedGlitch (fun c => if c = .vps then 0x0AC1 else 0) (fun c => c == .vps) 3534 (fun c => if c = .vps then none else some 0)
@@ -260,47 +371,95 @@ example : NoRepeatedGlitch (fun c => if c = .vps then 0x0AC1 else 0) (fun c => c
 
 /-! ## station_change_exactly_one_event_and_flush -/
 
-/-- The reception that makes the decoder adopt a different, known station (value already stored once, new id
-    neither the old one nor 0, old station identified) raises exactly one NETWORK event, carrying the new id
+/-- The reception that makes the decoder adopt a different station (value already stored once with a change
+    pending, new id not the old one, old station identified) raises exactly one NETWORK event, carrying the new id
     and the received CNI, empties the page cache (the `vbi->cn` of the old station is dropped: C10
-    `chsw_unreachable`), and leaves nothing pending. -/
+    `chsw_unreachable`), and leaves nothing pending on that carrier.  The new station must be known to the table
+    (`id ≠ 0`) on a tree without the repair of F35; with it (`cfg.chswIdent = true`) ANY CNI will do
+    (`station_change_to_unknown_exactly_one_event`). -/
 theorem station_change_exactly_one_event_and_flush (cfg : Cfg) (t : Nat) (s : State) (l : Line) (c : Carrier) (v : Nat)
-    (h : lineCni s.mask l = some (c, v)) (hst : v = cniOf c s.net) (hcy : s.net.cycle = 1)
-    (hid : (cfg.lk c v).1 ≠ s.net.nuid) (hold : s.net.nuid ≠ 0) (hnew : (cfg.lk c v).1 ≠ 0) :
+    (h : lineCni s.mask l = some (c, v)) (hst : v = cniOf c s.net) (hcy : pending cfg c s)
+    (hid : (cfg.lk c v).1 ≠ s.net.nuid) (hold : s.net.nuid ≠ 0) (hnew : cfg.chswIdent = true ∨ (cfg.lk c v).1 ≠ 0) :
     countNetwork (rxLine cfg t s l).2 = 1 ∧
     (∀ n, Ev.network n ∈ (rxLine cfg t s l).2 → n.nuid = (cfg.lk c v).1 ∧ cniOf c n = v) ∧
     (rxLine cfg t s l).1.cached = [] ∧ (rxLine cfg t s l).1.net.nuid = (cfg.lk c v).1 ∧
-    (rxLine cfg t s l).1.net.cycle = 2 := by
+    cniOf c (rxLine cfg t s l).1.net = v ∧
+    ¬ pending cfg c (rxLine cfg t s l).1 := by
   have k := rxLine_cniStep cfg t s l (lineCni_some_kind _ _ _ h)
+  have kd := rxLine_cniStep_deb cfg t s l (lineCni_some_kind _ _ _ h)
   obtain ⟨extra, hev, hex⟩ := k.2.2.2.2.2.2.2.2
-  have f := cniRx_switch_facts cfg.lk c v s hst hcy hid hold hnew
+  have f := cniRx_switch_facts cfg c v s hst hcy hid hold hnew
+  rw [pending_congr cfg c _ _ k.1 kd]
   rw [hev, k.1, k.2.1, h]
   simp only [cniStep]
-  refine ⟨?_, ?_, f.2.2.1, f.2.2.2.1, f.2.2.2.2.1⟩
+  refine ⟨?_, ?_, f.2.2.1, f.2.2.2.1, f.2.2.2.2.2, f.2.2.2.2.1⟩
   · rw [countNetwork_append, f.1, countNetwork_extra extra hex]
   · intro n hn
     exact f.2.1 n (mem_extra_of_network hex n (Or.inl hn))
 
+/-- station_change_exactly_one_event at FULL strength, the CNI-missing-from-the-table case included, for every tree
+    with the repair of F35 (`cfg.chswIdent = true`): an identified station replaced by ANY other CNI - known to the
+    table or not - raises exactly ONE NETWORK event; it and the NETWORK_ID that follows carry the received CNI and the
+    table's answer (id 0 and an empty name for an unknown one), the cache is emptied, the CNI stays stored and
+    nothing is pending, so it is not announced a second time. -/
+theorem station_change_to_unknown_exactly_one_event (cfg : Cfg) (hI : cfg.chswIdent = true)
+    (t : Nat) (s : State) (l : Line) (c : Carrier) (v : Nat)
+    (h : lineCni s.mask l = some (c, v)) (hst : v = cniOf c s.net) (hcy : pending cfg c s)
+    (hid : (cfg.lk c v).1 ≠ s.net.nuid) (hold : s.net.nuid ≠ 0) :
+    countNetwork (rxLine cfg t s l).2 = 1 ∧
+    (∀ n, (Ev.network n ∈ (rxLine cfg t s l).2 ∨ Ev.networkId n ∈ (rxLine cfg t s l).2) →
+      n.nuid = (cfg.lk c v).1 ∧ cniOf c n = v ∧ n.name = lkName cfg c v) ∧
+    (rxLine cfg t s l).1.cached = [] ∧ (rxLine cfg t s l).1.net.nuid = (cfg.lk c v).1 ∧
+    cniOf c (rxLine cfg t s l).1.net = v ∧ ¬ pending cfg c (rxLine cfg t s l).1 := by
+  have q := station_change_exactly_one_event_and_flush cfg t s l c v h hst hcy hid hold (Or.inl hI)
+  refine ⟨q.1, ?_, q.2.2.1, q.2.2.2.1, q.2.2.2.2.1, q.2.2.2.2.2⟩
+  intro n hn
+  have e := event_values_faithful cfg t s l c v h (Or.inl hI) n hn
+  exact ⟨e.2.1, e.1, e.2.2.1⟩
+
+-- non-vacuity of `station_change_to_unknown_exactly_one_event` and of `event_values_unknown_station_counterexample`: station
+-- 193 identified and a page cached, then the VPS code 0x0AC3, which the demonstration table does not know, twice.
+-- Callers pass "identified": ONE more NETWORK event, it and the NETWORK_ID carry the received code, the code stays stored.
+-- Callers pass the id 0: TWO more NETWORK events, all of zeros, NETWORK_ID of zeros, the stored code is wiped.
+example :
+    let r := runAtoms { cfgDemo with chswIdent := true } init
+      [.mask 3534, .line 0 vpsA, .line 0 vpsA, .line 0 (.page 0x100), .line 0 vpsG, .line 0 vpsG]
+    countNetwork r.2 = 2 ∧ r.1.cached = [] ∧ r.1.net.nuid = 0 ∧ r.1.net.cniVps = 0x0AC3 ∧
+    Ev.network { cniVps := 0x0AC3, cycle := 1 } ∈ r.2 ∧ Ev.networkId { cniVps := 0x0AC3, cycle := 1 } ∈ r.2 := by decide
+example :
+    let r := runAtoms cfgDemo init
+      [.mask 3534, .line 0 vpsA, .line 0 vpsA, .line 0 (.page 0x100), .line 0 vpsG, .line 0 vpsG]
+    cfgDemo.chswIdent = false ∧ countNetwork r.2 = 3 ∧ r.1.cached = [] ∧ r.1.net.cniVps = 0 ∧ Ev.networkId {} ∈ r.2 := by decide
+
 /-- From ANY state: a new CNI `b` received twice in a row on carrier `c` (whatever was stored before) while a
-    different known station was identified: over the two lines together exactly one NETWORK event, the cache
-    is empty afterwards and the new station is identified. -/
+    different station was identified (new one known to the table, or any CNI with the repair of F35): over the two
+    lines together exactly one NETWORK event, the cache is empty afterwards and the new station is identified.
+    Per-carrier shape: `b` is not the value this carrier announced last (`hper`; true in every state the decoder
+    reaches by announcing what it stores - a carrier returning to its announced value is a glitch that is over). -/
 theorem station_change_two_receptions (cfg : Cfg) (t1 t2 : Nat) (s : State) (l1 l2 : Line) (c : Carrier) (b : Nat)
     (h1 : lineCni s.mask l1 = some (c, b)) (h2 : lineCni s.mask l2 = some (c, b)) (hb : b ≠ cniOf c s.net)
-    (hid : (cfg.lk c b).1 ≠ s.net.nuid) (hold : s.net.nuid ≠ 0) (hnew : (cfg.lk c b).1 ≠ 0) :
+    (hid : (cfg.lk c b).1 ≠ s.net.nuid) (hold : s.net.nuid ≠ 0) (hnew : cfg.chswIdent = true ∨ (cfg.lk c b).1 ≠ 0)
+    (hper : cfg.perCarrier = true → b ≠ annOf c s.deb) :
     countNetwork (runAtoms cfg s [.line t1 l1, .line t2 l2]).2 = 1 ∧
     (runAtoms cfg s [.line t1 l1, .line t2 l2]).1.cached = [] ∧
     (runAtoms cfg s [.line t1 l1, .line t2 l2]).1.net.nuid = (cfg.lk c b).1 := by
   have k := rxLine_cniStep cfg t1 s l1 (lineCni_some_kind _ _ _ h1)
+  have kd := rxLine_cniStep_deb cfg t1 s l1 (lineCni_some_kind _ _ _ h1)
   obtain ⟨extra, hev, hex⟩ := k.2.2.2.2.2.2.2.2
-  rw [h1] at k hev
-  simp only [cniStep, cniRx_change cfg.lk c b s hb] at k hev
-  have hnet : (rxLine cfg t1 s l1).1.net = { setCni c s.net b with cycle := 1 } := k.1
+  rw [h1] at k hev kd
+  simp only [cniStep, cniRx_change cfg c b s hb] at k hev kd
+  have hnet : (rxLine cfg t1 s l1).1.net = (markChange cfg c b s).net := k.1
   have hm : (rxLine cfg t1 s l1).1.mask = s.mask := k.2.2.2.1
+  have hpend : pending cfg c (rxLine cfg t1 s l1).1 := by
+    rw [pending_congr cfg c _ _ hnet kd, markChange_pending_self]
+    cases hp : cfg.perCarrier
+    · exact Or.inl rfl
+    · exact Or.inr (hper hp)
   have q := station_change_exactly_one_event_and_flush cfg t2 (rxLine cfg t1 s l1).1 l2 c b (by rw [hm]; exact h2)
-    (by rw [hnet, cniOf_cycle, cniOf_setCni_self])
-    (by rw [hnet])
-    (by rw [hnet]; show (cfg.lk c b).1 ≠ (setCni c s.net b).nuid; rw [setCni_nuid]; exact hid)
-    (by rw [hnet]; show (setCni c s.net b).nuid ≠ 0; rw [setCni_nuid]; exact hold) hnew
+    (by rw [hnet, markChange_cniOf_self])
+    hpend
+    (by rw [hnet, markChange_nuid]; exact hid)
+    (by rw [hnet, markChange_nuid]; exact hold) hnew
   simp only [runAtoms, stepAtom, List.append_nil]
   refine ⟨?_, q.2.2.1, q.2.2.2.1⟩
   rw [countNetwork_append, q.1, hev, countNetwork_append, countNetwork_extra extra hex]
@@ -312,22 +471,26 @@ theorem countdown_idle_after_reset (s : State) (id : Nat) : (chswReset s id).1.c
 
 /-- The line that replaces an identified station by another known one leaves the countdown idle, even if a
     time-stamp gap had armed it before. -/
-theorem countdown_idle_after_station_change (lk : Lookup) (c : Carrier) (v : Nat) (s : State) (h : v = cniOf c s.net)
-    (h2 : s.net.cycle = 1) (h3 : (lk c v).1 ≠ s.net.nuid) (h4 : s.net.nuid ≠ 0) (h5 : (lk c v).1 ≠ 0) :
-    (cniRx lk c v s).1.chswcd = 0 := by
-  rw [cniRx_switch lk c v s h h2 h3 h4 h5]
+theorem countdown_idle_after_station_change (cfg : Cfg) (c : Carrier) (v : Nat) (s : State) (h : v = cniOf c s.net)
+    (h2 : pending cfg c s) (h3 : (cfg.lk c v).1 ≠ s.net.nuid) (h4 : s.net.nuid ≠ 0)
+    (h5 : cfg.chswIdent = true ∨ (cfg.lk c v).1 ≠ 0) :
+    (cniRx cfg c v s).1.chswcd = 0 := by
+  rw [cniRx_switch cfg c v s h h2 h3 h4 h5, markDone_chswcd]
 
 /-- Histories with gaps.  From a state with an identified station and a countdown that is idle or has at
     least three frames to go: a tick with ANY time stamp (a gap arms the 40-frame countdown), the new CNI
-    `b`, a tick with any time stamp, `b` again (known id, different from the old one), then any regular
-    history in which every reception equals what is now stored.  Over the whole history exactly ONE NETWORK
+    `b`, a tick with any time stamp, `b` again (id different from the old one; known to the table, or any CNI with
+    the repair of F35), then any regular history in which every reception equals what is now stored.  In the
+    per-carrier shape "nothing else is pending" is a hypothesis (`hper`: `b` is not what this carrier announced
+    last, no XDS name and no other carrier awaits its repeat); the shared cycle made that automatic.  Over the whole history exactly ONE NETWORK
     event; the change empties the cache and cancels the countdown; afterwards the countdown stays idle (no
     second reset when the 40 frames are over), the new station stays identified, and every page cached for
     the new station at any point stays cached. -/
 theorem station_change_exactly_one_event_and_flush_over_gap (cfg : Cfg) (s : State) (t0 t1 : Nat) (l1 l2 : Line)
     (c : Carrier) (b : Nat) (quiet : List Atom) (hcd : s.chswcd = 0 ∨ 3 ≤ s.chswcd)
     (h1 : lineCni s.mask l1 = some (c, b)) (h2 : lineCni s.mask l2 = some (c, b)) (hb : b ≠ cniOf c s.net)
-    (hid : (cfg.lk c b).1 ≠ s.net.nuid) (hold : s.net.nuid ≠ 0) (hnew : (cfg.lk c b).1 ≠ 0)
+    (hid : (cfg.lk c b).1 ≠ s.net.nuid) (hold : s.net.nuid ≠ 0) (hnew : cfg.chswIdent = true ∨ (cfg.lk c b).1 ≠ 0)
+    (hper : cfg.perCarrier = true → b ≠ annOf c s.deb ∧ s.net.cycle ≠ 1 ∧ ∀ c', c' ≠ c → cycOf c' s.deb ≠ 1)
     (hreg : RegularFrom (runAtoms cfg s [.tick t0, .line t0 l1, .tick t1, .line t1 l2]).1.time quiet)
     (hq : ∀ a ∈ quiet, SameAsStored (runAtoms cfg s [.tick t0, .line t0 l1, .tick t1, .line t1 l2]).1.net s.mask a) :
     countNetwork (runAtoms cfg s ([.tick t0, .line t0 l1, .tick t1, .line t1 l2] ++ quiet)).2 = 1 ∧
@@ -338,7 +501,7 @@ theorem station_change_exactly_one_event_and_flush_over_gap (cfg : Cfg) (s : Sta
     (∀ q1 q2, quiet = q1 ++ q2 →
       (runAtoms cfg s ([.tick t0, .line t0 l1, .tick t1, .line t1 l2] ++ q1)).1.cached ⊆
       (runAtoms cfg s ([.tick t0, .line t0 l1, .tick t1, .line t1 l2] ++ quiet)).1.cached) :=
-  change_over_gap cfg s t0 t1 l1 l2 c b quiet hcd h1 h2 hb hid hold hnew hreg hq
+  change_over_gap cfg s t0 t1 l1 l2 c b quiet hcd h1 h2 hb hid hold hnew hper hreg hq
 
 /-- 42 regular frames repeating the new station's VPS word, starting 40 ms after `t` -/
 def quietVps (l : Line) : Nat → Nat → List Atom
